@@ -47,7 +47,7 @@ def main(argv):
     if a.digests is not None:
         out = {}
         for i in [int(x) for x in a.digests.split(",") if x != ""]:
-            r = runner.execute(a.prop, seed, i, tier=a.tier)
+            r = runner.execute_isolated(a.prop, seed, i, tier=a.tier)
             out[str(i)] = r["digest"]
         runner.say("DIGESTS " + json.dumps(out))
         return 0
